@@ -1,7 +1,7 @@
 (* C07 - the oracle that is run over implementation traces accepts everything the model produces,
    so it can only fire where the implementation leaves what the theorems establish.
    Also: the recursion bound in C07_reachable_spec is tight (chain of 257 dependencies). *)
-From Icv Require Import Base.Tac Dep.DgModel Dep.DgObs Dep.DgReachProofs Dep.DgCycleProofs.
+From Icv Require Import Base.Tac Dep.DgModel Dep.DgObs Dep.DgReachProofs Dep.DgCycleProofs Dep.DgLoadProofs.
 Local Open Scope Z_scope.
 
 Lemma dg_find_none_all {A} (f : A -> bool) l : (forall x, In x l -> f x = false) -> find f l = None.
@@ -38,6 +38,15 @@ Proof.
   intros Hac. unfold dg_oracle_commit, dg_commit.
   rewrite <- (dg_oracle_cycle_agrees g extra Hac).
   destruct (dg_check_ok g extra); reflexivity.
+Qed.
+
+(* ... and so is the verdict of a load committed in any number of rounds *)
+Theorem dg_oracle_load_accepts started g batches :
+  dg_acyclic g [] -> dg_oracle_commit g (concat batches) (snd (dg_load started g batches)) = true.
+Proof.
+  intros Hac. unfold dg_oracle_commit. apply Bool.eqb_true_iff, eq_true_iff_eq.
+  rewrite (proj1 (dg_load_decides started g batches Hac)), dg_full_check_spec.
+  symmetry. apply dg_with_deps_acyclic.
 Qed.
 
 (* the invariant the oracle glue relies on: accepted batches keep the graph acyclic *)
